@@ -3,6 +3,7 @@ CONSTANTS
   Tier = "thorough"
 INVARIANTS
   Census
+  ViaSigned ViaFloat
   InRangeII EqToEq ExtToExt Monotone WidenNarrowId NarrowFloors PathIndep SmallWidths FormulaAgree
   I2FRange I2FMono I2FExact F2IRange F2IMono F2IAnchors RoundTrip FFExact
   Closure FromInRange WidenId OrderIso SmallTypes Eleven
